@@ -96,7 +96,8 @@ def run(ctx):
 
     def caps():
         sm = ctx.summ(SHA, 'SHA3.__init__')
-        calls = [x for x in T.walk(sm.term()) if x[0] == 'call' and x[1] == ('attr', ('g', 'Keccak'), '__init__')]
+        calls = [x for x in T.walk(sm.term()) if x[0] == 'call' and x[1][0] == 'attr' and x[1][2] == '__init__'
+                 and (x[1][1] == ('g', 'Keccak') or (x[1][1][0] == 'call' and x[1][1][1] == ('b', 'super')))]
         got = sorted((T.kwargs_of(c).get('c', T.NONE)[1], T.kwargs_of(c).get('b', T.NONE)[1]) for c in calls)
         ctx.equal('SHA3 capacities', got, sorted((2 * s, 1600) for s in (224, 256, 384, 512)), ctx.where(SHA, 'SHA3.__init__'), 'capacity = 2 x digest size, b = 1600')
     ctx.guard('SHA3 capacities', caps)
